@@ -65,6 +65,43 @@ func writeReplay(w *World, outDir string, cone *Cone, r *Result, repo string) *R
 	rf.Inputs = inputs
 	confirmed, ran, test, out := runReplay(w, fn, r.Obl, inputs, repo, outDir)
 	rf.GoTest, rf.Ran, rf.Confirmed, rf.RunOutput = test, ran, confirmed, truncate(out, 3000)
+	if r.Obl.Class == "post" && ran && !confirmed && len(r.Obl.RetTerms) > 0 {
+		// functional obligation of a function over scalars: the model predicts the returned values; if the real code
+		// returns exactly those on the model's input, the model is a genuine input on which the postcondition is false
+		if pred, err := getValues(r.File, r.Obl.RetTerms); err == nil {
+			var want []string
+			okAll := true
+			for i, t := range r.Obl.RetTerms {
+				rt := fn.Signature.Results().At(i).Type()
+				b, isB := under(rt).(*types.Basic)
+				if !isB || b.Info()&(types.IsInteger|types.IsBoolean) == 0 {
+					okAll = false
+					break
+				}
+				if b.Info()&types.IsBoolean != 0 {
+					want = append(want, pred[t])
+				} else {
+					n, ok := smtInt(pred[t])
+					if !ok {
+						okAll = false
+						break
+					}
+					if lo, _, _ := intRange(rt); lo.Sign() == 0 {
+						want = append(want, fmt.Sprintf("%d", uint64(n)))
+					} else {
+						want = append(want, fmt.Sprintf("%d", n))
+					}
+				}
+			}
+			if okAll {
+				line := "GOBTVC-RESULT " + strings.Join(want, " ")
+				if strings.Contains(out, line+"\n") {
+					rf.Confirmed = true
+					rf.Note = "the real code returns " + strings.Join(want, ", ") + " on this input, which violates the postcondition"
+				}
+			}
+		}
+	}
 	if ran && !confirmed {
 		rf.Note = "the solver's model did not make the real code fail (callee contracts are weaker than their bodies, or uninterpreted externals): reported without a failing input"
 	}
@@ -154,20 +191,27 @@ func modelInputs(w *World, fn *ssa.Function, r *Result) (map[string]string, bool
 		name, sl string
 		t     types.Type
 		ptr   bool
+		pn    string
 	}
 	var terms []string
 	var pend []pending
+	pname := func(p *ssa.Parameter) string {
+		if s, ok := r.Obl.ParamSubst[p.Name()]; ok {
+			return s
+		}
+		return "p_" + sanitize(p.Name())
+	}
 	for _, p := range fn.Params {
-		n := "p_" + sanitize(p.Name())
+		n := pname(p)
 		t := p.Type()
 		switch {
 		case byteSliceLike(t):
-			pend = append(pend, pending{p.Name(), n, t, false})
+			pend = append(pend, pending{p.Name(), n, t, false, n})
 			terms = append(terms, "(slen "+n+")", "(= (sarr "+n+") nil)")
 		default:
 			if pt, ok := under(t).(*types.Pointer); ok && byteSliceLike(pt.Elem()) {
 				sl := "(select H0_" + sanitize(cellKey(pt.Elem())) + " " + n + ")"
-				pend = append(pend, pending{p.Name(), sl, pt.Elem(), true})
+				pend = append(pend, pending{p.Name(), sl, pt.Elem(), true, n})
 				terms = append(terms, "(slen "+sl+")", "(= (sarr "+sl+") nil)", "(= "+n+" nil)")
 				continue
 			}
@@ -190,7 +234,7 @@ func modelInputs(w *World, fn *ssa.Function, r *Result) (map[string]string, bool
 		return nil, false, err.Error()
 	}
 	for _, p := range fn.Params {
-		n := "p_" + sanitize(p.Name())
+		n := pname(p)
 		t := p.Type()
 		if b, ok := under(t).(*types.Basic); ok {
 			switch {
@@ -229,7 +273,7 @@ func modelInputs(w *World, fn *ssa.Function, r *Result) (map[string]string, bool
 		}
 	}
 	for _, pd := range pend {
-		if pd.ptr && vals["(= "+"p_"+sanitize(pd.name)+" nil)"] == "true" {
+		if pd.ptr && vals["(= "+pd.pn+" nil)"] == "true" {
 			inputs[pd.name] = "nil"
 			continue
 		}
@@ -337,7 +381,7 @@ func TestGobtvcReplay(t *testing.T) {
 	os.WriteFile(ovf, ob, 0o644)
 	ctx, cancel := context.WithTimeout(context.Background(), 120*time.Second)
 	defer cancel()
-	cmd := exec.CommandContext(ctx, "bash", "-c", fmt.Sprintf("ulimit -v 4000000; cd %s && go test -mod=mod -overlay %s -vet=off -count=1 -timeout 60s -run '^TestGobtvcReplay$' .", pkgDir, ovf))
+	cmd := exec.CommandContext(ctx, "bash", "-c", fmt.Sprintf("ulimit -v 4000000; cd %s && go test -mod=mod -overlay %s -vet=off -count=1 -v -timeout 60s -run '^TestGobtvcReplay$' .", pkgDir, ovf))
 	cmd.Env = append(os.Environ(), "GOFLAGS=-mod=mod", "GOPROXY=off", "GOSUMDB=off", "GOTOOLCHAIN=local")
 	var buf bytes.Buffer
 	cmd.Stdout, cmd.Stderr = &buf, &buf
@@ -358,11 +402,12 @@ func assignCall(fn *ssa.Function, call string) string {
 	if n == 0 {
 		return call
 	}
-	var us []string
+	var us, pr []string
 	for i := 0; i < n; i++ {
-		us = append(us, "_")
+		us = append(us, fmt.Sprintf("gobtvcR%d", i))
+		pr = append(pr, "%v")
 	}
-	return strings.Join(us, ", ") + " = " + call
+	return strings.Join(us, ", ") + " := " + call + "\n\tfmt.Printf(\"GOBTVC-RESULT " + strings.Join(pr, " ") + "\\n\", " + strings.Join(us, ", ") + ")"
 }
 
 func cmdReplay(args []string) {
